@@ -87,6 +87,13 @@ def _byte_to_char_fn(text):
     return f
 
 
+def _atomic_write(path, text):
+    tmp = "%s.%d.tmp" % (path, os.getpid())
+    with open(tmp, "w", encoding="utf-8") as fh:
+        fh.write(text)
+    os.replace(tmp, path)
+
+
 def load_unit(modname, **kw):
     mod = importlib.import_module("units." + modname)
     importlib.reload(mod)
@@ -112,8 +119,7 @@ def verify_unit(modname, tier="quick", seed=None, rlimit=None, canaries=True, ta
         return res
     base = res.name.replace(".", "_")
     path = os.path.join(BUILD, base + ".rs")
-    with open(path, "w", encoding="utf-8") as fh:
-        fh.write(text)
+    _atomic_write(path, text)
     res.gen_path = path
     # audit diff: original text -> verified text, per fragment
     with open(os.path.join(BUILD, base + ".diff"), "w", encoding="utf-8") as fh:
@@ -141,8 +147,7 @@ def verify_unit(modname, tier="quick", seed=None, rlimit=None, canaries=True, ta
     if res.status == "ok" and canaries:
         ctext, cgenmap = unit.build(canaries=True)
         cpath = os.path.join(BUILD, base + "_canary.rs")
-        with open(cpath, "w", encoding="utf-8") as fh:
-            fh.write(ctext)
+        _atomic_write(cpath, ctext)
         expected = [m.group(1) for m in CANARY_RE.finditer(ctext)]
         res.canaries_expected = len(expected)
         rc = run_verus(cpath, rlimit=rl, seed=seed, multiple_errors=0, extra=unit.verus_args)
